@@ -480,6 +480,11 @@ func (a *lsAnalysis) analyzeFunc(fn *ssa.Function, final bool) bool {
 							st[base] = mode
 						}
 					} else {
+						if _, held := st[base]; !held && check {
+							if _, isDefer := ins.(*ssa.Defer); !isDefer {
+								report(fmt.Sprintf("%s: %s unlocks %s, a lock it does not hold at that point (when its caller releases the same lock afterwards the runtime aborts the process: unlock of unlocked mutex)", a.p.pos(ins.Pos()), funcName(fn), cls))
+							}
+						}
 						delete(st, base)
 					}
 					continue
